@@ -281,6 +281,7 @@ func (w *World) intrinsic(t *Thread, f *Frame, fnv FuncV, args []Val, c *ssa.Cal
 		return nil, false
 	case "(*sync.WaitGroup).Add":
 		k := key(args[0].(Ptr))
+		w.accessAtomic(t, args[0].(Ptr))
 		w.wgs[k] += int(args[1].(int64))
 		if w.wgs[k] < 0 {
 			panic(goPanicSignal{"sync: negative WaitGroup counter"})
@@ -288,6 +289,7 @@ func (w *World) intrinsic(t *Thread, f *Frame, fnv FuncV, args []Val, c *ssa.Cal
 		return nil, false
 	case "(*sync.WaitGroup).Done":
 		k := key(args[0].(Ptr))
+		w.accessAtomic(t, args[0].(Ptr))
 		w.wgs[k]--
 		if w.raceOn {
 			t.vc = t.vc.tick(t.id)
@@ -299,6 +301,7 @@ func (w *World) intrinsic(t *Thread, f *Frame, fnv FuncV, args []Val, c *ssa.Cal
 		return nil, false
 	case "(*sync.WaitGroup).Wait":
 		k := key(args[0].(Ptr))
+		w.accessAtomic(t, args[0].(Ptr))
 		if w.wgs[k] > 0 {
 			t.waitWhat = "wg.Wait"
 			t.ready = func() bool { return w.wgs[k] == 0 }
